@@ -14,6 +14,11 @@ pub struct L2Params {
     pub w: [u64; 6],
     /// allow 64 KiB raw chunks / long-match 2 MiB chunks occasionally
     pub extremes: bool,
+    /// largest copy distance (u64::MAX: anything the history allows); with a cap the output can be
+    /// many times larger than the dictionary a container needs to announce
+    pub max_dist: u64,
+    /// prefer long copies (large outputs from few symbols)
+    pub long_bias: bool,
 }
 
 impl L2Params {
@@ -23,6 +28,8 @@ impl L2Params {
             max_syms,
             w: [2, 4, 6, 3, 3, 2],
             extremes: false,
+            max_dist: u64::MAX,
+            long_bias: false,
         }
     }
 }
@@ -101,8 +108,8 @@ pub fn gen_chunks(rng: &mut Rng, p: &L2Params) -> Vec<Chunk> {
                 } else {
                     rng.range(1, p.max_syms as u64) as usize
                 };
-                let mut pp = ProgParams::standard(n_syms, u64::MAX);
-                pp.long_bias = long;
+                let mut pp = ProgParams::standard(n_syms, p.max_dist);
+                pp.long_bias = long || p.long_bias;
                 pp.max_out = if long { 1 << 21 } else { 1 << 20 };
                 if long {
                     pp.w = [2, 20, 1, 10, 3, 3, 3];
@@ -111,7 +118,7 @@ pub fn gen_chunks(rng: &mut Rng, p: &L2Params) -> Vec<Chunk> {
                 if reset == 0 && !it.hist.is_empty() && n_syms > 2 {
                     // make the first symbols depend on inherited state
                     let idx = rng.below(4) as u8;
-                    if (it.reps[idx as usize] as usize) < it.hist.len() {
+                    if (it.reps[idx as usize] as usize) < it.hist.len() && (it.reps[idx as usize] as u64) < p.max_dist {
                         let s = Sym::Rep {
                             idx,
                             len: rng.range(2, 12) as u32,
